@@ -195,10 +195,69 @@ def permutations_for(n, tier, rng):
     return out
 
 
+CL_MULTI = ("query marker selection over several reference marker files: the table is a function of the files' contents and "
+            "of their order in the list, not of where the files happen to be stored (ties between files included)")
+
+
+def row_multi_reference(tier, seed):
+    """two references of one taxonomy with the same number of cells in every leaf (every parent is a
+    tie between the two files) and different data; the pair is copied to several directories (the paths,
+    hence their hashes, differ) and the selection is run on each copy: all tables must be equal"""
+    import h5py
+    from cell_type_mapper.type_assignment.marker_cache_v2 import create_marker_gene_lookup_from_ref_list
+    n_copies = 6 if tier == 'quick' else 12
+    row = fx.new_row('cell_type_mapper.type_assignment.marker_cache_v2.create_marker_gene_lookup_from_ref_list',
+                     'seeded-random', f"2 reference marker files of one 3-level taxonomy (tie in every parent), copied to "
+                     f"{n_copies} directories, both list orders", [CL_MULTI])
+    try:
+        with fx.scratch() as d:
+            wa = fx.build_world(d, int(seed) + 901, taxonomy='d3_bal', n_query=6, name='refA')
+            wb = fx.build_world(d, int(seed) + 902, taxonomy='d3_bal', n_query=6, name='refB')
+            genes = list(wa.query_gene_names)
+            tables = {}
+            for order in ('AB', 'BA'):
+                for k in range(n_copies):
+                    cdir = tempfile.mkdtemp(prefix=f'copy{k}_', dir=str(d))
+                    refs = {}
+                    for tag, w in (('A', wa), ('B', wb)):
+                        sub = os.path.join(cdir, tag)
+                        os.makedirs(sub)
+                        sp = shutil.copy(w.precomputed_path, os.path.join(sub, 'precomputed_stats.h5'))
+                        rp = shutil.copy(w.reference_marker_path, os.path.join(sub, 'reference_markers.h5'))
+                        with h5py.File(rp, 'a') as f:
+                            md = json.loads(f['metadata'][()].decode('utf-8'))
+                            md['precomputed_path'] = sp
+                            del f['metadata']
+                            f.create_dataset('metadata', data=json.dumps(md).encode('utf-8'))
+                        refs[tag] = rp
+                    with fx.quiet():
+                        lk = create_marker_gene_lookup_from_ref_list(
+                            reference_marker_path_list=[refs[t] for t in order], query_gene_names=genes,
+                            n_per_utility=3, n_per_utility_override=None, n_processors=1,
+                            behemoth_cutoff=5000000, tmp_dir=cdir, drop_level=None)
+                    lk = {kk: sorted(v) for kk, v in lk.items() if kk not in ('metadata', 'log')}
+                    row['cases'] += 1
+                    row['accepted'] += 1
+                    fx.note_case(row, (order, k))
+                    tables.setdefault(order, []).append(lk)
+            for order, lst in tables.items():
+                for k, lk in enumerate(lst[1:], 1):
+                    if lk != lst[0]:
+                        diff = sorted(kk for kk in set(lk) | set(lst[0]) if lk.get(kk) != lst[0].get(kk))
+                        fx.add_failure(row, CL_MULTI, 'ensures',
+                                       dict(list_order=order, copy=k, taxonomy='d3_bal', seeds=[int(seed) + 901, int(seed) + 902]),
+                                       f"copy {k} of the same two files selects other markers than copy 0 for {diff[:4]}: "
+                                       f"{ {kk: lk.get(kk) for kk in diff[:2]} } vs { {kk: lst[0].get(kk) for kk in diff[:2]} }")
+                        break
+    except BaseException:   # noqa
+        fx.add_error(row, traceback.format_exc()[-1500:])
+    return fx.finish_row(row)
+
+
 def run(tier='quick', seed=0, jobs=None):
     """quick: one world; thorough: two worlds (seed, seed+1; second one CSC query / dense reference)"""
     if tier == 'quick':
-        return _run_one(tier, seed, jobs, 50, {})
+        return _run_one(tier, seed, jobs, 50, {}) + [row_multi_reference(tier, seed)]
     first = _run_one(tier, seed, jobs, 215, {})
     second = _run_one(tier, seed + 1, jobs, 215, dict(encoding='csc', ref_encoding='dense'))
     out = []
@@ -210,7 +269,7 @@ def run(tier='quick', seed=0, jobs=None):
         r['error'] = a['error'] or b['error']
         r['bound'] = a['bound'] + ' || second world (CSC query, dense reference): ' + b['bound'].split('; workers dispatched', 1)[-1]
         out.append(r)
-    return out
+    return out + [row_multi_reference(tier, seed)]
 
 
 def _run_one(tier, seed, jobs, budget, world_kw):
